@@ -1,0 +1,15 @@
+//go:build verif
+
+// Machine-checked contracts for the taskctl command (comment-only; read by
+// /verif/govc, never compiled into the program).
+
+package main
+
+// cfgLoaded: the package-level configuration as left by a successful Load (app Before hook)
+//@ pred cfgLoaded() := cfg != nil && cfg.Variables != nil && (forall k string :: k in cfg.Tasks ==> cfg.Tasks[k] != nil) && (forall k string :: k in cfg.Pipelines ==> cfg.Pipelines[k] != nil && wfS(cfg.Pipelines[k]))
+
+//@ func draw
+//@   requires g != nil && wfS(p)
+//@   nomod
+//@ func buildSuggestions
+//@   nomod
